@@ -11,6 +11,8 @@ import GE.Model.PathAnalysis
 import GE.Model.LvaluePath
 import GE.Model.Number
 import GE.Model.AttrLoop
+import GE.Model.Position
+import GE.Model.Escape
 import GE.Model.BindingMap
 import GE.Model.CssIO
 /-!
@@ -125,6 +127,40 @@ def step (fs : List String) : String :=
       let a := GE.PA.prepareAnalysis sc e
       esc (GE.Gen.spellStmts o.stmts) ++ "\t" ++ esc (GE.Gen.spellAll o.toks) ++ "\t" ++ toString (GE.Gen.aboveCond e)
         ++ "\t" ++ esc (GE.PA.stateExpr sc false a.pas a.pc) ++ "\t" ++ esc (GE.PA.stateExpr sc true a.pas a.pc)
+  | ["esc_body", s] => esc (str (GE.Esc.escBody (chars s)))
+  | ["esc_quote", s] => esc (str (GE.Esc.escQuote (chars s)))
+  | "decode_text" :: src :: pairs =>
+    -- named references known to the caller as name=value fields; numeric ones decoded here like `entities::decode`
+    let tbl : List (List Char × List Char) := pairs.filterMap fun kv =>
+      match (chars kv).span (· != '=') with
+      | (k, _ :: v) => some (k, v)
+      | _ => none
+    let hexVal (c : Char) : Nat := if '0' ≤ c ∧ c ≤ '9' then c.toNat - 48 else if 'a' ≤ c ∧ c ≤ 'f' then c.toNat - 87 else c.toNat - 55
+    let num (isHex : Bool) (ds : List Char) : Option (List Char) :=
+      if ds.isEmpty then none else
+      let v := ds.foldl (fun a c => a * (if isHex then 16 else 10) + hexVal c) 0
+      if v < 0x110000 ∧ ¬ (0xD800 ≤ v ∧ v < 0xE000) ∧ v < 2 ^ 32 then some [Char.ofNat v] else none
+    let t : GE.Esc.Tables := ⟨fun n => (tbl.find? (·.1 == n)).map (·.2), num⟩
+    let cs := chars src
+    esc (str (GE.Esc.decode t (cs.length + 1) cs))
+  | ["positions", src, steps] =>
+    let utf8 (c : Char) : Nat := if c.toNat < 0x80 then 1 else if c.toNat < 0x800 then 2 else if c.toNat < 0x10000 then 3 else 4
+    let rec takeBytes (n : Nat) (acc : List Char) : List Char → List Char × List Char
+      | [] => (acc.reverse, [])
+      | c :: r => if n = 0 then (acc.reverse, c :: r) else takeBytes (n - utf8 c) (c :: acc) r
+    let rec takeWs (acc : List Char) : List Char → List Char × List Char
+      | [] => (acc.reverse, [])
+      | c :: r => if GE.AttrLoop.isTemplateWs c then takeWs (c :: acc) r else (acc.reverse, c :: r)
+    let go := (steps.splitOn ",").foldl (fun (st : GE.Pos.Pos × Nat × List Char × List String) (tok : String) =>
+      let (p, idx, rest, out) := st
+      let (eaten, rest') :=
+        if tok == "0" then (match rest with | [] => ([], []) | c :: r => ([c], r))
+        else if tok == "w" then takeWs [] rest
+        else takeBytes (tok.toNat?.getD 0) [] rest
+      let p' := if tok == "0" || tok == "w" then GE.Pos.advance p eaten else GE.Pos.skipBytes p eaten
+      let idx' := idx + (eaten.map utf8).sum
+      (p', idx', rest', out ++ [s!"{p'.line}:{p'.col}:{idx'}"])) (⟨0, 0⟩, 0, chars src, [])
+    String.intercalate " " go.2.2.2
   | ["number", kind, digits] =>
     let ds := (chars digits).map fun c =>
       if '0' ≤ c ∧ c ≤ '9' then c.toNat - 48 else if 'a' ≤ c ∧ c ≤ 'f' then c.toNat - 87 else if 'A' ≤ c ∧ c ≤ 'F' then c.toNat - 55 else 99
